@@ -131,6 +131,19 @@ pub struct Spend {
     /// output that only shares (puzzle hash, amount) with the ephemeral coin
     #[serde(default)]
     pub decoy_for: Option<usize>,
+    /// only with a parent link. Non-zero: the coin's parent id is the coin id of spend
+    /// `parent_spend`, but that spend does not create it — 1: it creates nothing for us, 2: it
+    /// creates a coin of the same amount with another puzzle hash. The coin is then an ordinary
+    /// confirmed coin (not ephemeral): relative and birth assertions are allowed and must be
+    /// evaluated against its coin record.
+    #[serde(default)]
+    pub orphan: u8,
+}
+
+impl Spend {
+    fn is_ephemeral(&self) -> bool {
+        self.parent_spend.is_some() && self.orphan == 0
+    }
 }
 
 #[derive(Serialize, Deserialize, Clone, Debug, PartialEq)]
@@ -278,7 +291,7 @@ impl Reference {
         let mut ephemeral = vec![];
         let mut static_reject = None;
         for sp in &case.spends {
-            let eph = sp.parent_spend.is_some();
+            let eph = sp.is_ephemeral();
             ephemeral.push(eph);
             let mut v = vec![];
             for c in &sp.conds {
@@ -561,9 +574,10 @@ fn build_tree_mode(a: &mut Allocator, case: &Case, b: &Built, generator: bool) -
         }
         // CREATE_COIN for every spend of this bundle that names us as its parent
         for j in 0..n {
-            if case.spends[j].parent_spend == Some(i) && j != i {
+            if case.spends[j].parent_spend == Some(i) && j != i && case.spends[j].orphan != 1 {
                 let op = a.new_atom(&[51]).unwrap();
-                let ph = a.new_atom(&b.puzzles[j]).unwrap();
+                let other_ph = seed32(b"orphan-ph", case.spends[j].parent_seed.wrapping_add(j as u64 * 104_729));
+                let ph = a.new_atom(if case.spends[j].orphan == 0 { &b.puzzles[j] } else { &other_ph }).unwrap();
                 let am = a.new_atom(&int_atom(case.spends[j].amount)).unwrap();
                 conds.push(list(a, &[op, ph, am]));
             }
@@ -817,6 +831,9 @@ impl C03 {
         }
         if reference.static_reject == Some("malformed_integer") {
             c.inc("probe.bundle_with_malformed_integer");
+        }
+        if parsed.is_ok() && case.spends.iter().any(|s| s.parent_spend.is_some() && s.orphan != 0 && s.conds.iter().any(|c| c.kind.is_relative_or_birth())) {
+            c.inc("probe.relative_lock_on_coin_whose_parent_is_spent_here_but_does_not_create_it");
         }
         let others: Vec<(&'static str, Result<OwnedSpendBundleConditions, String>)> = if case.via_puzzles && effective_pad(case) == 0 {
             c.inc("bundles.also_run_as_generator_and_spend_bundle");
@@ -1374,6 +1391,7 @@ impl C03 {
                 },
                 conds,
                 decoy_for: None,
+                orphan: 0,
             });
         }
         // break parent cycles (a -> b -> a): keep links only towards a spend that is not itself linked back
@@ -1393,6 +1411,28 @@ impl C03 {
                 if cyc {
                     spends[i].parent_spend = None;
                     spends[i].amount = 1000 + rng.below(1000);
+                }
+            }
+        }
+        // a parent id that is another spend's coin id without that spend creating the coin: not
+        // ephemeral; such a spend gets relative / birth assertions more often than not
+        for i in 0..nspends {
+            if spends[i].parent_spend.is_some() && rng.chance(1, 6) {
+                spends[i].orphan = 1 + rng.below(2) as u8;
+                for f in spends[i].fillers.iter_mut() {
+                    if f.1 == 4 && rng.chance(9, 10) {
+                        f.1 = 0;
+                    }
+                }
+                if rng.chance(3, 4) {
+                    for _ in 0..rng.range(1, 3) {
+                        let kind = *rng.pick(&[Kind::HRel, Kind::SRel, Kind::BHRel, Kind::BSRel, Kind::BirthH, Kind::BirthS]);
+                        let arg = gen_arg(rng, kind, &anchors);
+                        if let Cls::Val(v) = classify(&arg, kind.width()) {
+                            anchors.push(v);
+                        }
+                        spends[i].conds.push(Cond { kind, arg: hex::encode(arg), extra_args: 0 });
+                    }
                 }
             }
         }
